@@ -276,6 +276,21 @@ func c17Abs(x int64) int64 {
 	return x
 }
 
+// c17MtimeOK: "to the second" is the exact time stamp, the second it lies in
+// (truncation towards the past, as the file system and tar's own format
+// define it) or the nearest second (archive/tar rounds, half up). For a
+// time before 1970 with a fraction the second it lies in is the smaller one.
+func c17MtimeOK(got, want int64) bool {
+	floorDiv := func(x int64) int64 {
+		q := x / 1e9
+		if x%1e9 < 0 {
+			q--
+		}
+		return q
+	}
+	return got == want || got == floorDiv(want)*1e9 || (want < 1<<62 && got == floorDiv(want+5e8)*1e9)
+}
+
 // c17CompareMember lists the header fields that differ from the demand.
 func c17CompareMember(w *c17Want, m *c17Member) []string {
 	var d []string
@@ -322,7 +337,7 @@ func c17CompareMember(w *c17Want, m *c17Member) []string {
 	if h.Uid != int(e.UID) || h.Gid != int(e.GID) {
 		d = append(d, fmt.Sprintf("owner %d:%d want %d:%d", h.Uid, h.Gid, e.UID, e.GID))
 	}
-	if c17Abs(h.ModTime.UnixNano()-e.Mtime) >= 1e9 {
+	if !c17MtimeOK(h.ModTime.UnixNano(), e.Mtime) {
 		d = append(d, fmt.Sprintf("mtime %d want %d (to the second)", h.ModTime.UnixNano(), e.Mtime))
 	}
 	if tf == tar.TypeChar || tf == tar.TypeBlock {
@@ -355,11 +370,11 @@ func init() {
 		ID:    "C17",
 		Level: "exploration",
 		Rule: "random trees as in C01 (adversarial names incl. non-ASCII, empty files, sizes around the 32KiB chunk, ~1MiB files, hard-link groups of files, fifos and char devices, symlinks, fifos, char/block devices, setuid/setgid/sticky, three owners, ns/negative/far-future mtimes, user.* xattrs with empty and binary values on files and directories (names holding '=' and '%' in 1 tree of 40, compared after undoing GNU tar's keyword encoding), trusted.* on symlinks) plus 0-2 entries renamed to 101-255 byte (partly non-ASCII) names x filter {none, include, exclude, include+exclude; 0-2 patterns each from the C10 grammar, single level fsutil.NewFilterFS} x source {fsutil.NewFS on disk, synthetic in-memory FS, fsutil.SubDirFS over NewFS (half of them with a second sub-root 'su' next to 'sub'), diagnostic: filter stacked on a keep-all map filter}. " +
-			"fsutil.WriteTar writes into a buffer. The view is predicted from an independent snapshot (or the model) + the naive reference filter and compared with a real second Walk; the archive is read with archive/tar (well-formed to EOF, two zero blocks, member sequence == view, per member: name with directory slash, type flag, link name, size, payload bytes, mode incl. special bits, uid/gid, |mtime - view| < 1s, device numbers, SCHILY.xattr.* records) and extracted as root with GNU tar (--xattrs --xattrs-include=* --same-owner --numeric-owner -p) into an empty directory whose snapshot is compared with the view (type, bytes, link groups, targets, device numbers, mode, owner, xattrs, mtime incl. directories to the second). " +
+			"fsutil.WriteTar writes into a buffer. The view is predicted from an independent snapshot (or the model) + the naive reference filter and compared with a real second Walk; the archive is read with archive/tar (well-formed to EOF, two zero blocks, member sequence == view, per member: name with directory slash, type flag, link name, size, payload bytes, mode incl. special bits, uid/gid, mtime = view exactly, floored or rounded to the second, device numbers, SCHILY.xattr.* records) and extracted as root with GNU tar (--xattrs --xattrs-include=* --same-owner --numeric-owner -p) into an empty directory whose snapshot is compared with the view (type, bytes, link groups, targets, device numbers, mode, owner, xattrs, mtime incl. directories to the second). " +
 			"non-trivial = the archive has at least one member and the case has a link group, a special file, a multi-chunk or empty file, a name > 100 bytes, or a filter that selects a proper non-empty subset; distinct by (tree, filter, source) fingerprint",
 		Assumptions: []string{
 			"runs as root on a file system with mknod, user.* and trusted.* xattrs; GNU tar >= 1.30 in PATH",
-			"'mtime to the second' accepts truncation and rounding (|difference| < 1 s); archive/tar rounds to the nearest second",
+			"'mtime to the second' accepts the exact value, the second the time stamp lies in (floor, also before 1970) and the nearest second; archive/tar rounds to the nearest second",
 			"hard-linked devices/fifos: the link member is demanded, its device numbers are those of the first member",
 			"when the view names a hard-link source that the (single-level) filter hides, the demanded archive makes the first visible member the file and links the others to it (what Send does); for the stacked-filter diagnostic source this is only counted",
 			"a listing that differs from the naive reference filter but equals incremental matching is known finding K1 of C10: counted and not judged (Walk and Open of the filter disagree on such views)",
@@ -750,7 +765,7 @@ func c17Run(c *core.Ctx) *core.Result {
 		e := &want[i].E
 		if j, ok := gi[e.Path]; ok {
 			r.Count("extracted_entries_compared", 1)
-			if g := &got.Entries[j]; g.Type == e.Type && c17Abs(g.Mtime-e.Mtime) >= 1e9 {
+			if g := &got.Entries[j]; g.Type == e.Type && !c17MtimeOK(g.Mtime, e.Mtime) {
 				xd = append(xd, fmt.Sprintf("differs (mtime): want %s | got %s", e.String(), g.String()))
 			}
 		}
